@@ -186,6 +186,63 @@ Section Glue.
       destruct (str_slice_bnd code _ _ A2 B2 C2) as [body ->]. discriminate.
   Qed.
 
+  Lemma ok_strict t : ok t -> strict (node_rule t) = true -> node_start t < node_end t.
+  Proof. destruct t as [r s e kids]. intros [[(_ & _ & Hs) _] _] H. cbn in *. auto. Qed.
+
+  (* every entry position is a byte offset inside the text *)
+  Lemma one_macro_pos cfg found e :
+    strict "macro_args" = true -> ok found -> one_macro P cfg code found = Emit e -> e_pos e <= blen code.
+  Proof.
+    intros Hstrict Hok. unfold one_macro. pose proof (ok_kids found Hok) as Hkids.
+    destruct (node_kids found) as [|name_rule inner]; [discriminate|].
+    inversion Hkids as [|? ? Hn Hinner]; subst.
+    destruct (negb (is_rule name_rule "macro_name")); [discriminate|].
+    destruct (directive_check P (p_ignore P) code (node_start name_rule) (p_comment_re P)) as [[|]|]; try discriminate.
+    destruct (str_slice code (node_start name_rule) (node_end name_rule)) as [name|]; [|discriminate].
+    destruct (negb (macro_of_interest name cfg)); [discriminate|].
+    destruct inner as [|args rest]; [discriminate|]. inversion Hinner as [|? ? Ha _]; subst.
+    destruct (is_rule args "macro_args") eqn:Eargs; cbn [negb]; [|discriminate].
+    pose proof (scan_args_ok (node_kids args) (mkScan None [] false None) (ok_kids args Ha)
+                  ltac:(repeat split; cbn; auto)) as (Hmsg & Hkvs & Hat).
+    set (sc := scan_args (node_kids args) (mkScan None [] false None)) in *.
+    destruct (if cfg_structured cfg then _ else _) as [nk|]; [|discriminate].
+    destruct (cfg_structured cfg && negb nk).
+    - destruct (find_ref_kv_ok (sc_kvs sc) Hkvs) as [->|(vs & -> & Hvs)].
+      + destruct (sc_after_target sc) as [p|].
+        * destruct (line_col code p) as [[l c]|]; [|discriminate]. intros H. inversion H; subst. cbn [e_pos].
+          apply bnd_le_len. exact Hat.
+        * destruct (line_col code (node_start args)) as [[l c]|]; [|discriminate]. intros H. inversion H; subst.
+          cbn [e_pos]. destruct (ok_bnd args Ha) as (_ & Be & _).
+          assert (Hlt : node_start args < node_end args).
+          { apply ok_strict; [exact Ha|]. unfold is_rule in Eargs. apply String.eqb_eq in Eargs. rewrite Eargs. exact Hstrict. }
+          pose proof (bnd_le_len _ _ Be). lia.
+      + destruct (ok_bnd vs Hvs) as (A2 & _ & _).
+        destruct (line_col code (node_start vs)) as [[l c]|]; [|discriminate].
+        destruct (str_slice code (node_start vs) (node_end vs)); [|discriminate].
+        intros H. inversion H; subst. cbn [e_pos]. apply bnd_le_len. exact A2.
+    - destruct (sc_msg sc) as [sv|]; [|discriminate].
+      destruct (ok_bnd sv Hmsg) as (A2 & _ & _).
+      destruct (line_col code (node_start sv)) as [[l c]|]; [|discriminate].
+      destruct (str_slice code (node_start sv) (node_end sv)); [|discriminate].
+      intros H. inversion H; subst. cbn [e_pos]. apply bnd_le_len. exact A2.
+  Qed.
+
+  Lemma collect_pos cfg : forall founds acc es,
+    strict "macro_args" = true -> Forall ok founds ->
+    Forall (fun e => e_pos e <= blen code) acc ->
+    collect P cfg code founds acc = Done es -> Forall (fun e => e_pos e <= blen code) es.
+  Proof.
+    induction founds as [|f founds IH]; intros acc es Hs Hok Hacc H; cbn [collect] in H.
+    - inversion H; subst. apply Forall_rev. exact Hacc.
+    - inversion Hok as [|? ? Hf Hok2]; subst.
+      destruct (is_rule f "log_macro").
+      + destruct (one_macro P cfg code f) as [|e|] eqn:Eom; try discriminate.
+        * eapply IH; eauto.
+        * eapply IH; [exact Hs|exact Hok2| |exact H]. constructor; [|exact Hacc].
+          eapply one_macro_pos; eauto.
+      + destruct (is_rule f "EOI" || is_rule f "other_name"); [|discriminate]. eapply IH; eauto.
+  Qed.
+
   Definition top_ok (allowed : list string) (f : ptree) : Prop := In (node_rule f) allowed.
 
   Lemma collect_no_panic cfg : forall founds acc,
@@ -211,28 +268,33 @@ Section Finder.
     p_file P = ERule name ty impl body /\
     emits ty (match ty with RCompound => Compound | RNonAtomic => NonAtomic | _ => NonAtomic end) false = true /\
     wf_grammar (p_ws P) (p_comment P) (p_file P) = true /\
-    strict_ok (fun _ => false) (p_file P) = true /\
+    strict_ok (fun r => String.eqb r "macro_args") (p_file P) = true /\
     forallb (fun n => String.eqb n "log_macro" || String.eqb n "EOI" || String.eqb n "other_name")
             (top_names body (inner_atomicity ty impl NonAtomic) false) = true.
 
   Theorem entries_total name ty impl body :
     grammar_ok name ty impl body ->
-    forall cfg code, exists es, entries P cfg code = Done es.
+    forall cfg code, exists es, entries P cfg code = Done es /\ Forall (fun e => e_pos e <= blen code) es.
   Proof.
     intros (Hfile & Hemit & Hwf & Hstrict & Hnames) cfg code. unfold entries.
+    set (strict := fun r => String.eqb r "macro_args").
     pose proof (parse_terminates (p_U P) (p_ws P) (p_comment P) (p_file P) Hwf code) as Hnd.
-    destruct (parse (p_U P) (p_ws P) (p_comment P) (p_file P) code) as [| |i' toks] eqn:Ep; [eauto|congruence|].
+    destruct (parse (p_U P) (p_ws P) (p_comment P) (p_file P) code) as [| |i' toks] eqn:Ep;
+      [exists []; split; [reflexivity|constructor]|congruence|].
     unfold parse in Ep.
-    pose proof (run_tokens code (fun _ => false) (p_U P) (skipf (p_U P) (p_ws P) (p_comment P))
+    pose proof (run_tokens code strict (p_U P) (skipf (p_U P) (p_ws P) (p_comment P))
                   (skipf_adv (p_U P) (p_ws P) (p_comment P)) _ _ _ _ _ _ Hstrict (suffix_init code) Ep) as Htok.
     rewrite Hfile in Ep.
     destruct (rule_node_shape (p_U P) (skipf (p_U P) (p_ws P) (p_comment P)) name ty impl body NonAtomic false
                 _ _ _ ltac:(destruct ty; exact Hemit) Ep) as (kids & -> & Hkn).
     cbn [node_kids].
     cbn [forest_in] in Htok. destruct Htok as (_ & Hle & Htree & _).
-    assert (Hok : ok code (fun _ => false) (Node name (pos {| rest := code; pos := 0 |}) (pos i') kids)) by (split; assumption).
-    pose proof (ok_kids code (fun _ => false) _ Hok) as Hkids. cbn [node_kids] in Hkids.
-    apply (collect_no_panic P code (fun _ => false) cfg kids [] Hkids).
+    assert (Hok : ok code strict (Node name (pos {| rest := code; pos := 0 |}) (pos i') kids)) by (split; assumption).
+    pose proof (ok_kids code strict _ Hok) as Hkids. cbn [node_kids] in Hkids.
+    assert (Hdone : exists es, collect P cfg code kids [] = Done es).
+    2:{ destruct Hdone as [es Hes]. exists es. split; [exact Hes|].
+        eapply (collect_pos P code strict cfg kids [] es eq_refl Hkids); [constructor|exact Hes]. }
+    apply (collect_no_panic P code strict cfg kids [] Hkids).
     rewrite forallb_forall in Hnames. unfold named_in in Hkn. rewrite Forall_forall in Hkn |- *.
     intros f Hf. specialize (Hnames _ (Hkn f Hf)). unfold is_rule.
     destruct (String.eqb (node_rule f) "log_macro"), (String.eqb (node_rule f) "EOI"),
